@@ -5,7 +5,7 @@
     each of its error paths; after markChildDeleted the name has no path node,
     so a later walk/create binds a fresh, non-deleted node. *)
 From Coq Require Import List Arith Bool ZArith Lia.
-From P9V Require Import Refs.Model Refs.RefProofs.
+From P9V Require Import Refs.Model Refs.RefProofs Refs.RefStep.
 Import ListNotations.
 
 Section Fence.
@@ -197,12 +197,14 @@ Proof.
   rewrite app_nth2 by lia. rewrite Nat.sub_diag. reflexivity.
 Qed.
 
-(** renameChildTo's callback tells the moved fidRef its new parent File and new name (last call) *)
+(** renameChildTo's callback tells the moved fidRef its new parent File and new name; only the DecRef
+    of the original parent (possibly Close calls) follows *)
 Theorem rename_cb_notifies tgt newnm r p (s : st) :
   fr_parent (gref s r) = Some p ->
-  exists s3, hd_error (s_log B (rename_cb B bstep tgt newnm r s)) = Some (BRenamed (fr_file (gref s3 r)) (fr_file (gref s3 tgt)) newnm).
+  exists s2 s3, rename_cb B bstep tgt newnm r s = snd (decref_ B bstep p s3) /\
+                hd_error (s_log B s3) = Some (BRenamed (fr_file (gref s2 r)) (fr_file (gref s2 tgt)) newnm).
 Proof.
-  intros E. unfold rename_cb. rewrite E. eexists. unfold bcall_.
+  intros E. unfold rename_cb. rewrite E. eexists. eexists. split; [reflexivity|]. unfold bcall_.
   match goal with |- context [bstep ?b ?c] => destruct (bstep b c) end. cbn. reflexivity.
 Qed.
 
@@ -215,5 +217,111 @@ Proof.
   intros E X O. cbn [step]. unfold do_walk_op, with_fid, lookup_fid. rewrite E.
   destruct (gref_hold_fields r r s) as (_ & _ & O1 & _ & _ & _ & _ & X1). cbv zeta in O1, X1. rewrite O1, O.
   unfold do_walk. rewrite X1, X. reflexivity.
+Qed.
+
+(** ---- notifyDelete marks the whole subtree of the victim ---- *)
+Definition ndel (s : st) (m : nat) : bool := pn_deleted (get_node B s m).
+Definition nlen (s : st) : nat := length (s_nodes B s).
+
+Lemma ndel_set_node n x (s : st) m :
+  ndel (set_node B n x s) m = if (m =? n) && (n <? nlen s) then pn_deleted x else ndel s m.
+Proof.
+  unfold ndel, nlen, get_node, set_node. cbn [s_nodes with_nodes].
+  destruct (Nat.eqb_spec m n) as [->|N]; cbn [andb].
+  - destruct (Nat.ltb_spec n (length (s_nodes B s))); [rewrite nth_upd_same by auto; reflexivity | rewrite upd_oob by auto; reflexivity].
+  - rewrite nth_upd_other by auto. reflexivity.
+Qed.
+
+(** deletion marks are never taken back by notifyDelete *)
+Definition del_mono (s s' : st) : Prop := forall m, ndel s m = true -> ndel s' m = true.
+
+Lemma dm_fold {A} (f : A -> st -> st) (l : list A) :
+  (forall a s, del_mono s (f a s)) -> forall s, del_mono s (fold_left (fun st a => f a st) l s).
+Proof.
+  intros H. induction l as [|a l IH]; intros s m Hm; cbn; auto. apply IH. apply H. exact Hm.
+Qed.
+
+Lemma dm_notify_delete fuel : forall n s, del_mono s (notify_delete B fuel n s).
+Proof.
+  induction fuel as [|f IH]; intros n s m Hm; cbn [notify_delete]; [exact Hm|].
+  apply (dm_fold (fun c st => notify_delete B f (snd c) st)); [intros a s0; apply IH|].
+  rewrite ndel_set_node. destruct ((m =? n) && (n <? nlen s)); auto.
+Qed.
+
+(** [reach s n c k]: c is k childNodes-edges below n *)
+Fixpoint reach (s : st) (n c k : nat) : Prop :=
+  match k with
+  | 0 => n = c
+  | S k' => exists nm c1, In (nm, c1) (pn_nodes (gnode s n)) /\ c1 < nlen s /\ reach s c1 c k'
+  end.
+
+Lemma reach_nodes_same s s' n c k : nodes_same s s' -> reach s n c k -> reach s' n c k.
+Proof.
+  intros (L & N). revert n. induction k as [|k IH]; intros n; cbn; auto.
+  intros (nm & c1 & Hin & Hl & R). exists nm, c1. rewrite N. unfold nlen in *. rewrite L. auto.
+Qed.
+
+Theorem notify_delete_marks fuel : forall n s c k,
+  k < fuel -> n < nlen s -> reach s n c k -> ndel (notify_delete B fuel n s) c = true.
+Proof.
+  induction fuel as [|f IH]; intros n s c k Hk Hn R; [lia|]. cbn [notify_delete].
+  set (s1 := set_node B n (pn_with_deleted (get_node B s n)) s).
+  assert (NS1 : nodes_same s s1) by (apply ns_set_node; reflexivity).
+  destruct k as [|k].
+  - cbn in R. subst c.
+    apply (dm_fold (fun c st => notify_delete B f (snd c) st)); [intros a s0; apply dm_notify_delete|].
+    unfold s1. rewrite ndel_set_node, Nat.eqb_refl. cbn [andb].
+    destruct (Nat.ltb_spec n (nlen s)); [reflexivity | lia].
+  - cbn in R. destruct R as (nm & c1 & Hin & Hl & R).
+    assert (Child : forall s', nodes_same s s' -> ndel (notify_delete B f c1 s') c = true).
+    { intros s' NS. apply (IH c1 s' c k); [lia | destruct NS as (L & _); unfold nlen in *; lia | eapply reach_nodes_same; eauto]. }
+    assert (Fold : forall l s0, nodes_same s s0 -> In (nm, c1) l ->
+              ndel (fold_left (fun st a => notify_delete B f (snd a) st) l s0) c = true).
+    { induction l as [|a l IHl]; intros s0 NS0 Hl0; [contradiction|]. cbn [fold_left]. destruct Hl0 as [->|Hl0].
+      - cbn [snd]. apply (dm_fold (fun a st => notify_delete B f (snd a) st)); [intros a s2; apply dm_notify_delete|].
+        apply Child; auto.
+      - apply IHl; auto. eapply nodes_same_trans; [exact NS0 | apply ns_notify_delete]. }
+    apply Fold; auto.
+Qed.
+
+(** C08_fenced, completeness: after markChildDeleted every path node at or below the victim (in the
+    tree from which the victim has been detached) carries the deleted mark - whatever the shape of the
+    node graph: the fuel is the number of nodes + 1, enough for every simple path - hence every fidRef
+    whose node is at or below the victim is fenced ([is_deleted] reads that mark). *)
+Definition detached (n nm : nat) (s : st) : st := snd (remove_with_name B bstep n nm None s).
+
+Theorem mark_child_deleted_marks_subtree n nm v c k (s : st) :
+  alookup Nat.eqb nm (pn_nodes (gnode s n)) = Some v -> v < nlen s ->
+  reach (detached n nm s) v c k -> k <= nlen s ->
+  ndel (mark_child_deleted B bstep n nm s) c = true.
+Proof.
+  intros Ev Hv R Hk. unfold mark_child_deleted. unfold detached in R.
+  assert (NS : nodes_same s (snd (remove_with_name B bstep n nm None s)) \/ True) by (right; exact I).
+  assert (O : fst (remove_with_name B bstep n nm None s) = Some v /\ nlen (snd (remove_with_name B bstep n nm None s)) = nlen s).
+  { unfold remove_with_name.
+    set (lp := match alookup Nat.eqb nm (pn_refs (get_node B s n)) with
+               | Some m => rwn_loop B n nm None m [] s | None => ([], s) end).
+    assert (H1 : fst lp = [] /\ nodes_same s (snd lp)).
+    { unfold lp. destruct (alookup Nat.eqb nm (pn_refs (get_node B s n))); [|split; [reflexivity | apply nodes_same_refl]].
+      split; [apply held_rwn_none | apply ns_rwn_none]. }
+    destruct lp as [held s1]. cbn [fst snd] in H1. destruct H1 as (-> & (L1 & N1)). cbn [release_all fst snd].
+    split; [change (get_node B s1 n) with (gnode s1 n); rewrite N1; exact Ev|].
+    unfold nlen, set_node. cbn. rewrite upd_length. exact L1. }
+  destruct (remove_with_name B bstep n nm None s) as [orig s2]. cbn [fst snd] in *. destruct O as (-> & L2).
+  apply (notify_delete_marks (node_fuel B s2) v s2 c k); auto.
+  - unfold node_fuel. unfold nlen in *. lia.
+  - lia.
+Qed.
+
+(** ... in particular a fidRef whose node is there is fenced afterwards *)
+Corollary fenced_below_victim n nm v k r (s : st) :
+  alookup Nat.eqb nm (pn_nodes (gnode s n)) = Some v -> v < nlen s ->
+  reach (detached n nm s) v (fr_node (gref s r)) k -> k <= nlen s ->
+  is_deleted B (mark_child_deleted B bstep n nm s) r = true.
+Proof.
+  intros Ev Hv R Hk. unfold is_deleted.
+  destruct (sc_mark_child_deleted B bstep n nm s) as (_ & _ & E & _).
+  unfold get_ref at 1. rewrite E. fold (get_ref B s r).
+  apply (mark_child_deleted_marks_subtree n nm v _ k s Ev Hv R Hk).
 Qed.
 End Fence.
